@@ -13,3 +13,4 @@ INVARIANT SBRGDiagOK
 INVARIANT SBRGExactOK
 INVARIANT Drift_Diag2
 INVARIANT Drift_Diag1
+INVARIANT Drift_Refusal
